@@ -1816,7 +1816,7 @@ class BackRef:
         return new
 
 
-def check_backrefs(y, x_obs, ctx, prop, sig):
+def check_backrefs(y, x_obs, ctx, prop, sig, unique=True):
     """After a copy / reindex of an object carrying a BackRef: the nested copy that attribute asked for is an object of
     its own, equal to the source - not the copy that was under way."""
     for key, v in list(y.__dict__.items()):
@@ -1830,7 +1830,8 @@ def check_backrefs(y, x_obs, ctx, prop, sig):
                 continue
             ok = nested is not y and type(nested) is type(y)
             ctx.check(prop, sig + '/nested-copy-is-an-object-of-its-own', ok, {'attribute': key, 'got': type(nested).__name__, 'is-the-outer-result': nested is y})
-            if ok:
+            if ok and (unique or v.how != 'reindex'):
+                # (a reindex onto a span in which a label occurs twice takes both periods from the first: section 3.x, C12)
                 now = O.obs(nested)
                 ctx.check(prop, sig + '/nested-copy-equals-the-source', now == x_obs, {'paths': O.diff(x_obs, now)[:4]})
 
@@ -1909,7 +1910,7 @@ def do_spawn(fsic, parties, party, op, ctx, classes, class_before, spec):
     if route != 'sibling':
         a, b = O.obs(x), O.obs(y)
         ctx.check('C11', f'spawn/{route}/observationally-equal', a == b, {'paths': O.diff(a, b)[:5]})
-        check_backrefs(y, a, ctx, 'C11', f'spawn/{route}')
+        check_backrefs(y, a, ctx, 'C11', f'spawn/{route}', party.unique)
         if ctx.counters.get('steps', 0) >= 5:
             ctx.probe('copy-after>=5-operations')
     if len(parties) >= MAXP:
@@ -2296,7 +2297,7 @@ def do_reindex(fsic, parties, party, op, ctx, before_obs, universe_spec, spec):
                 ctx.check('C12', f'{sig}/contents', True)
     # attributes, lags/leads, strict carry over; the source is unchanged (checked by the caller against `before`)
     a, b = O.obs(x), O.obs(y)
-    check_backrefs(y, a, ctx, 'C12', f'{sig}/re-entrant')
+    check_backrefs(y, a, ctx, 'C12', f'{sig}/re-entrant', party.unique)
     for key in ('strict', 'attributes', 'attrs', 'class'):
         ctx.check('C12', f'{sig}/carried-over/{key}', a[key] == b[key], {'paths': O.diff(a[key], b[key])[:4]})
     for key in ('lags', 'leads'):
